@@ -6,6 +6,8 @@ from tables import invariants as I
 def run(ctx):
     tabs = I.load_tables(REPO)
     I.helper_closure(ctx, tabs)
+    from contracts import util_header
+    ctx.pyvc(util_header.UNITS, {})
     ctx.extra["exhaustive"] = True
     ctx.extra["table_rows"] = dict((l, len(t["rows"])) for l, t in tabs.items())
     ctx.trusted += [
@@ -19,4 +21,7 @@ def run(ctx):
         "Python/Lua boilerplate): not a property of any function's return value that a contract here can state",
         "py_statements / lua_statements helper closure",
     ]
-    return ctx.finish(level="other", explanation="necessary conditions only: helper-closure invariants over the statement and helper tables, decided by exhaustive evaluation on the tables the real modules build")
+    ctx.trusted += ["pyvc, z3/cvc5; lines appended by callees of Wrapc.write_header (Header.write_headers, _create_splicer, "
+                    "enum/struct/prototype lists) are assumed balanced; cpp_if is the conditional without its '#'"]
+    return ctx.finish(level="proof", explanation="necessary conditions only: helper-closure invariants over the tables "
+                      "(exhaustive evaluation) and preprocessor-conditional / include-guard balance of the header writers (SMT)")
